@@ -290,11 +290,23 @@ func (s *scanCtx) FindDecl(pkgPath, name string) (*entityDecl, bool) {
 }
 
 func (s *scanCtx) FindModel(pkgPath, name string) (*entityDecl, bool) {
+	// an alias declaration (type A = T) carries the type object of T: several models may match.
+	// The declaration of T itself wins, then the alias with the smallest name: the choice must not
+	// depend on the iteration order of the map.
+	var alias *entityDecl
 	for _, cand := range s.app.Models {
 		ct := cand.Type.Obj()
 		if ct.Name() == name && ct.Pkg().Path() == pkgPath {
-			return cand, true
+			if cand.Ident.Name == name {
+				return cand, true
+			}
+			if alias == nil || cand.Ident.Name < alias.Ident.Name {
+				alias = cand
+			}
 		}
+	}
+	if alias != nil {
+		return alias, true
 	}
 	if decl, found := s.FindDecl(pkgPath, name); found {
 		s.app.ExtraModels[decl.Ident] = decl
